@@ -68,6 +68,7 @@ type specSweepCheck struct {
 	rule     string
 	defs     func(tier string) []*ph.Def
 	alpha    []string
+	alphaExt []string // further tokens that appear only in argv shorter than the full depth
 	depthQ   int
 	depthT   int
 	facets   ph.Facets
@@ -118,6 +119,25 @@ func (sc *specSweepCheck) register() {
 			c.Res.Bounds = map[string]any{"L": depth, "alphabet": sc.alpha, "definitions": len(defs)}
 			dist := distinctSet{}
 			sw := &sweep{c: c, defs: defs, alpha: sc.alpha, depth: depth}
+			if len(sc.alphaExt) > 0 {
+				c.Res.Bounds["alphabet_extension_for_argv_shorter_than_L"] = sc.alphaExt
+				sw.alpha = append(append([]string{}, sc.alpha...), sc.alphaExt...)
+				ext := map[string]bool{}
+				for _, t := range sc.alphaExt {
+					ext[t] = true
+				}
+				sw.filter = func(argv []string) bool {
+					if len(argv) < depth {
+						return true
+					}
+					for _, t := range argv {
+						if ext[t] {
+							return false
+						}
+					}
+					return true
+				}
+			}
 			sw.visit = func(def *ph.Def, argv []string) {
 				res := c.Res
 				pc := &parserCase{Check: name, Def: def, Argv: argv, Dispatch: sc.dispatch}
